@@ -177,3 +177,60 @@ func toRefPES(h *astits.PESHeader, sid uint8) *ref.PESHdr {
 	}
 	return r
 }
+
+func crp(v *uint64) *astits.ClockReference {
+	if v == nil {
+		return nil
+	}
+	return &astits.ClockReference{Base: int64(*v)}
+}
+
+// fromRefPES builds the library struct a caller would fill in to have the model header written.
+func fromRefPES(r *ref.PESHdr) *astits.PESHeader {
+	h := &astits.PESHeader{StreamID: r.StreamID}
+	if !ref.HasOptHeader(r.StreamID) {
+		return h
+	}
+	o := &astits.PESOptionalHeader{MarkerBits: 2, ScramblingControl: r.Scrambling, Priority: r.Priority, DataAlignmentIndicator: r.Alignment, IsCopyrighted: r.Copyright, IsOriginal: r.Original}
+	switch {
+	case r.PTS != nil && r.DTS != nil:
+		o.PTSDTSIndicator, o.PTS, o.DTS = astits.PTSDTSIndicatorBothPresent, crp(r.PTS), crp(r.DTS)
+	case r.PTS != nil:
+		o.PTSDTSIndicator, o.PTS = astits.PTSDTSIndicatorOnlyPTS, crp(r.PTS)
+	}
+	if r.ESCR != nil {
+		o.HasESCR, o.ESCR = true, fromRefPCR(r.ESCR)
+	}
+	if r.ESRate != nil {
+		o.HasESRate, o.ESRate = true, *r.ESRate
+	}
+	if r.Trick != nil {
+		o.HasDSMTrickMode = true
+		o.DSMTrickMode = &astits.DSMTrickMode{TrickModeControl: r.Trick.Ctl, FieldID: r.Trick.FieldID, IntraSliceRefresh: r.Trick.Intra, FrequencyTruncation: r.Trick.FreqTrunc, RepeatControl: r.Trick.Rep}
+	}
+	if r.CopyInfo != nil {
+		o.HasAdditionalCopyInfo, o.AdditionalCopyInfo = true, *r.CopyInfo
+	}
+	if r.CRC != nil {
+		o.HasCRC, o.CRC = true, *r.CRC
+	}
+	if e := r.Ext; e != nil {
+		o.HasExtension = true
+		if e.Private != nil {
+			o.HasPrivateData, o.PrivateData = true, append([]byte{}, e.Private...)
+		}
+		o.HasPackHeaderField = e.HasPack
+		if e.Seq != nil {
+			o.HasProgramPacketSequenceCounter = true
+			o.PacketSequenceCounter, o.MPEG1OrMPEG2ID, o.OriginalStuffingLength = e.Seq.Counter, e.Seq.MPEG1or2, e.Seq.OrigStuff
+		}
+		if e.PSTD != nil {
+			o.HasPSTDBuffer, o.PSTDBufferScale, o.PSTDBufferSize = true, e.PSTD.Scale, e.PSTD.Size
+		}
+		if e.HasExt2 {
+			o.HasExtension2, o.Extension2Data, o.Extension2Length = true, append([]byte{}, e.Ext2...), uint8(len(e.Ext2))
+		}
+	}
+	h.OptionalHeader = o
+	return h
+}
